@@ -18,7 +18,7 @@ CHECKS = {
               'child dies, CPU time grows at most like size^2.5 and stays below 20 s. Exploration: layer 1 is exhaustive for '
               'its edit space, the rest is sampled.'),
         design_ref='DESIGN.md 4/C01 and 9.2',
-        note=('Deciding build: clang 14 -O1 -DNDEBUG + ASan/UBSan (asserts off as in the RelWithDebInfo baseline), run with a 2 GiB '
+        note=('Deciding build: clang 14 -O1 -DNDEBUG -D_GLIBCXX_ASSERTIONS + ASan/UBSan (the library\'s own asserts off as in the RelWithDebInfo baseline; libstdc++ assertions on, so that an out-of-range vector index or a null smart pointer inside the standard library aborts), run with a 2 GiB '
               'stack limit because the instrumented build needs about 60 times the stack of the shipped build per recursion level. '
               'Leaks are not checked. libxml2 itself is uninstrumented. Time-outs count only after three confirmations on CPU time. '
               'A quick fuzz campaign (60-80 k executions per target) is a sampler: two of the crash defects repaired in /repo '
@@ -34,7 +34,7 @@ CHECKS = {
               'literal boundary texts are checked against exact integer / correctly rounded double values.'),
         design_ref='DESIGN.md 4/C02',
         note=('Trusted: the reference operator table (gen_expr.py), Python float() as correctly rounded conversion, the oracle '
-              'server dump (public accessors only). Contexts: S_EXPRESSION (quick) plus query, update-list and initialiser contexts (thorough).'),
+              'server dump (public accessors only). Contexts: S_EXPRESSION and the assignment label of an XML model whose character data is spelled in six ways - entities, CDATA, text + CDATA, XML comment inside, numeric references (quick) plus query, update-list and initialiser contexts (thorough).'),
     ),
     'C03': dict(
         engine='oracle-server roundtrip action + Hypothesis + depth-2 enumeration + libFuzzer targets with the round trip inside (harness/py/prop_C03.py, gen_query.py, harness/cpp/fuzz_common.h)',
@@ -55,7 +55,7 @@ CHECKS = {
         technique='model-based property testing: abstract model -> XML rendering with layout noise -> parse -> projection of the document compared with the generator\'s own expected projection (builder-only exact; Document* overload with the documented invariant rewrite normalised)',
         category='exploration',
         text=('Generated abstract models (templates, parameters, declarations, locations, branchpoints, init, edges with all label '
-              'kinds, instantiations incl. partial and chained, system line with priorities) are rendered to XML and parsed; every '
+              'kinds, instantiations incl. partial and chained, system line with priorities; a quarter with unusual but valid identifiers: leading underscores, $ and #, soft keywords, names the sources compare with) are rendered to XML (layout noise incl. labels that do not go to the grammar and character data in pieces around XML comments / CDATA sections) and parsed; every '
               'element the statement lists must appear in the document in source order, attached to the right owner, with the '
               'right expression trees, endpoints, flags and parameter-to-argument mapping.'),
         design_ref='DESIGN.md 4/C04',
@@ -85,7 +85,7 @@ CHECKS = {
               'symmetric, transitive, implies equal text and distinguishes every single-node perturbation; every child index '
               'below get_size() is accessed under ASan. 143 node kinds occur in a quick run. type_t::subst is held to the same '
               'laws (exact / pure / identity) on every (template parameter, frame variable) pair: range bounds, array sizes and '
-              'record fields that mention the parameter under any operator.'),
+              'record fields that mention the parameter under any operator. equal() is also evaluated between the expressions of several documents alive in one process (string constants live in per-document tables): symmetric, and equal implies equal text.'),
         design_ref='DESIGN.md 4/C19',
         note=('An under-reported child count is not observable through the public API (over-reporting is, under ASan). '
               'Types attached to expression nodes are not part of the expression substitution comparison; declared types are substituted through type_t::subst and compared separately.'),
@@ -121,7 +121,7 @@ CHECKS = {
         text=('The name n is declared at drawn scope levels (global at a drawn position, template parameter / local, function '
               'parameter / local in global and template-local functions, nested blocks, iteration binders incl. nested and '
               'brace-less, quantifier binders incl. nested, select binders, instantiation parameter) with pairwise different '
-              'bounds. About 35 use sites per model lie before and after each declaration, inside and after each scope, in all '
+              'bounds. A second family does the same for a type name (typedef at global, template, function and block level, also over a built-in type name; probe variables of that type before and after each typedef). About 35 use sites per model lie before and after each declaration, inside and after each scope, in all '
               'label kinds, in another template, in instantiation arguments and in queries (unqualified, P1.n, and P1.m .. P1.ms '
               'whose declared types mention the template parameter in range bounds, array sizes and struct fields, with argument '
               'substitution through chains of up to three partial instantiations). Each site must be bound to the declaration the '
@@ -142,7 +142,7 @@ CHECKS = {
               'location when the call was clean. Inputs: all single structural edits of four seed documents, degenerate documents '
               '(empty templates and process bodies, nameless elements), generated models '
               'clean and after one of 30 mutations that force error recovery (duplicate and clashing names of every kind incl. branchpoints, dangling/foreign '
-              'references, bad instantiations, token faults), XML and XTA, and libFuzzer campaigns with the predicate inside.'),
+              'references, bad instantiations, token faults), XML and XTA, the same predicate again after member-access queries (P.v, T(0).v of process sets) and on models with progress measures, and libFuzzer campaigns with the predicate inside.'),
         design_ref='DESIGN.md 4/C08',
         note=('Trusted: the predicate itself (dump.h) and the public accessors it reads. Crashes while building are C01\'s '
               'subject and only counted. LSC templates are exempt from the initial-location clause.'),
@@ -183,7 +183,7 @@ CHECKS = {
         category='exploration',
         text=('Generated models (accepted, with one abstract fault, with one token-level fault incl. unterminated comments) and the '
               '18 repository models are rewritten by R1 redundant parentheses, R2 white space / comments / continuations between '
-              'tokens, R3 consistent renaming of every user identifier (and renaming of variables to the soft keywords A U W R E '
+              'tokens and white space / line breaks around names, R3 consistent renaming of every user identifier (and renaming of variables to the soft keywords A U W R E '
               'M sup inf bounds simulation), R4 keyword aliases to symbols. The multiset of (message, context) of errors and '
               'warnings with the renaming applied, the exception class, the supported-methods verdict and the canonical document '
               'dump with the renaming applied must be equal for the model and its rewriting.'),
@@ -214,7 +214,7 @@ CHECKS = {
               'argument, quantifier bodies, assert, seven query forms) x 59 write forms (every assignment operator, ++/--, '
               'element and field writes, writes nested in sub-expressions, writer functions with the write in every statement '
               'position, call chains to depth 4, writes through reference parameters) are enumerated completely; each cell is '
-              'a model W and a twin R. W must be rejected, R accepted - the twin makes the rejection attributable to the write.'),
+              'a model W and a twin R. W must be rejected, R accepted - the twin makes the rejection attributable to the write. In the query contexts writers declared in a template are also called through a process (P.wf()).'),
         design_ref='DESIGN.md 4/C11',
         note=('Exhaustive for the stated finite cell table only. Rejection is any error on the document or query; the evidence '
               'histogram shows how many rejections carry a side-effect message (compile-time contexts may reject a direct write '
@@ -253,11 +253,11 @@ CHECKS = {
         engine='oracle-server expression builder + TypeChecker::checkExpression; cell enumeration + Hypothesis (harness/py/prop_C14.py)',
         technique='metamorphic testing (operand swap): acceptance and result-type kind of a op b vs b op a, c ? a : b vs !c ? b : a (bare and inside lvalue / reference-argument contexts), f(A&) with a B variable vs f(B&) with an A variable; complete enumeration of type-class pairs x operators, random representatives',
         category='exploration',
-        text=('Operands are taken from 26 type classes (int, bounded int also typedef\'d / const / as array element and struct field, bool, double, clock, clock difference, clock '
+        text=('Operands are taken from 32 type classes (one array type in five spellings: by size, index type, typedef\'d index type, size expression, named constant; int, bounded int also typedef\'d / const / as array element and struct field, bool, double, clock, clock difference, clock '
               'constraint, two scalar sets, three struct types, arrays, channel kinds, strings; variables, constants, literals, '
               'compound expressions), each checked to be well typed alone. For all ordered class pairs and the eleven '
               'commutative operators, for inline-if with negated condition (also inside contexts that need an lvalue or a '
-              'reference argument, with branches of different constness) and for reference parameters of 27 parameter types the '
+              'reference argument, with branches of different constness) and for reference parameters of 34 parameter types the '
               'two operand orders must agree on acceptance and on the kind of the result type.'),
         design_ref='DESIGN.md 4/C14',
         note=('Accepted = checkExpression returns true and no error is recorded. Channel parameters of a different kind than '
@@ -269,14 +269,14 @@ CHECKS = {
         technique='cell enumeration (restricting feature x placement x instantiation style) with an implied-verdict oracle and twins, plus metamorphic relations (never-instantiated template carrying a feature, permutation of independent declarations)',
         category='exploration',
         text=('Every restricting feature of the statement (clock compared with / assigned from / initialised with a floating '
-              'value, clock rate other than 0 or 1, dynamic template, non-broadcast channel, priorities incl. one-level and template-local lists) is placed at every '
+              'value (also clock arrays and record fields, branches of conditional updates, bodies of called functions), clock rate other than 0 or 1 (also in quantifier bodies, disjuncts, implications), dynamic template, non-broadcast channel, priorities incl. one-level and template-local lists) is placed at every '
               'listed placement (conjunct positions, operand orders, all relational operators, guard and invariant, update list '
               'positions, global and local declarations, first/last) and in five ways of entering the system; the verdict for '
               'the affected analysis must be false. The twin without the feature makes each cell attributable. Adding a '
               'never-instantiated template with a feature, or permuting independent declarations, must not change the verdict.'),
         design_ref='DESIGN.md 4/C17',
         note=('One-directional as stated. Non-constant clock rates are outside the cells (the repository\'s own test expects symbolic '
-              'support there). Three detector defects were repaired in /repo; replays of their minimal cells are run first.'),
+              'support there). Seven detector defects were repaired in /repo; replays of their minimal cells are run first.'),
     ),
     'C18': dict(
         engine='rapidcheck + exhaustive loops (harness/cpp/c18.cpp)',
@@ -285,7 +285,7 @@ CHECKS = {
         text=('Every range_t operation is compared with its set-theoretic definition computed in wider arithmetic: '
               'exhaustively for int8_t (element operations over all a<=b,e; binary operations over a boundary-complete '
               'strided (quick) or the complete (thorough) operand space, plus a brute-force pointwise hull for + - * on '
-              'small magnitudes) and by boundary-biased random generation for int32_t and double under UBSan. This is '
+              'small magnitudes; operands that alias the object: r op= r, r op= r.first() / r.last() against the same call with a copy) and by boundary-biased random generation for int32_t and double under UBSan. This is '
               'exploration: exhaustive only for the int8_t sub-space, sampled elsewhere.'),
         design_ref='DESIGN.md 4/C18',
         note=('Trusted: the reference formulas in c18.cpp (validated against brute-force pointwise hulls on |x|<=9), clang 14 '
